@@ -137,7 +137,8 @@ def check(case):
 
 def _check(case, params, X, n, p, msl, mil, Xtrain, Xpred, history):
     with sut("CircularBinarySegmentation.fit/predict", allowed=(RuntimeError,)):
-        det = K.build(K.detector_spec("CircularBinarySegmentation", params))
+        spec_ = K.detector_spec("CircularBinarySegmentation", params)
+        det = K.reconfigured(spec_, Xtrain) if history == "reconfigured" else K.build(spec_)
         if history == "scorer_prefit_wide" and not K.prefit_scorer_wide(det, Xtrain):
             history = None
         det.fit(Xtrain)
